@@ -74,3 +74,77 @@ def rule_axisdefault(repo, rid, modules, exempt=()):
     if len(hazards(fx)) != 2 or len(hazards(ast.parse('def g(f, m, v):\n    f.masked_scatter_(m, v)\n    f.masked_scatter_(m, v[m])\n').body[0])) != 1:
         raise AnalysisError('%s: fixtures no longer classified' % rid)
     return res
+
+
+# ------------------------------------------------------------------------------------------------ front-counted axes in batch-polymorphic code
+
+_FIRST = {'sum', 'mean', 'cumsum', 'cumprod', 'cummul', 'squeeze', 'unsqueeze', 'flip', 'softmax', 'log_softmax', 'prod', 'amax', 'amin', 'max', 'min',
+          'argmax', 'argmin', 'all', 'any', 'std', 'var', 'unbind', 'select', 'narrow', 'index_select', 'gather', 'logsumexp', 'nansum', 'median',
+          'sort', 'argsort', 'count_nonzero', 'vector_norm', 'roll', 'diff', 'movedim', 'flatten', 'unflatten', 'split', 'chunk', 'index_copy',
+          'index_copy_', 'index_add', 'index_add_', 'index_fill', 'index_fill_', 'scatter', 'scatter_', 'scatter_add', 'take_along_dim', 'cat', 'concat',
+          'concatenate', 'stack', 'cross'}
+_AXIS_POS = {'norm': 2, 'cross': 2, 'roll': 2, 'split': 2, 'chunk': 2, 'cumops': 1, 'topk': 2, 'unflatten': 1, 'diff': 2, 'take_along_dim': 2}
+
+
+def front_axes(fnode):
+    """[(node, description)]: axis arguments that are non-negative integer literals >= 1 (counted from the front), `.T` / `.t()` full reversals"""
+    out = []
+    for n in ast.walk(fnode):
+        if isinstance(n, ast.Attribute) and n.attr == 'T' and isinstance(n.ctx, ast.Load):
+            out.append((n, '`.T` reverses EVERY axis: on a batch of more than one dimension the batch axes are reversed too (`.mT` / transpose(-1, -2) '
+                           'swaps the last two only)'))
+            continue
+        if not isinstance(n, ast.Call):
+            continue
+        d = dotted(n.func) or ''
+        name = d.split('.')[-1] if d else (n.func.attr if isinstance(n.func, ast.Attribute) else '')
+        func_form = d.startswith(('torch.', 'pp.')) or isinstance(n.func, ast.Name)
+        if name == 't' and not n.args and not func_form:
+            out.append((n, '`.t()` is defined for matrices only: any batch dimension makes it raise'))
+            continue
+        cands = []
+        kw = {k.arg: k.value for k in n.keywords}
+        for k in ('dim', 'axis', 'dims', 'start_dim', 'end_dim', 'dim0', 'dim1'):
+            if k in kw:
+                cands.append(kw[k])
+        args = list(n.args[1:]) if func_form else list(n.args)
+        if name in ('transpose', 'swapaxes', 'swapdims', 'movedim'):
+            cands += args[:2]
+        elif name in _AXIS_POS and not any(k in kw for k in ('dim', 'axis')):
+            i = _AXIS_POS[name] - 1
+            if i < len(args):
+                cands.append(args[i])
+        elif name in _FIRST and not any(k in kw for k in ('dim', 'axis')) and args:
+            cands.append(args[0])
+        elif name not in _FIRST and name not in _AXIS_POS and name not in ('transpose', 'swapaxes', 'swapdims', 'movedim'):
+            continue
+        for c in cands:
+            try:
+                v = ast.literal_eval(c)
+            except (ValueError, SyntaxError):
+                continue
+            vs = v if isinstance(v, (tuple, list)) else [v]
+            bad = [x for x in vs if isinstance(x, int) and not isinstance(x, bool) and x >= 1]
+            if bad:
+                out.append((n, 'axis %s is counted from the FRONT: with one more (or one fewer) batch dimension than the author had in mind it addresses '
+                               'a different axis - the component / matrix axes of a batch-polymorphic tensor are only reachable counted from the back' % bad[0]))
+                break
+    return out
+
+
+@guarded
+def rule_frontaxis(repo, rid, modules):
+    res = RuleResult(rid, 'batch transparency of the Lie-tensor kernels: no reduction, concatenation, scan, cross product or transposition in these '
+                     'modules addresses an axis by a positive literal counted from the front, and none uses the full reversal `.T` / `.t()` - the inputs '
+                     'carry any number of leading batch dimensions, so only axes counted from the back are the same axis for every batch shape', floor=20)
+    for m in modules:
+        for f in repo.module(m).functions.values():
+            hz = front_axes(f.node)
+            res.inst({'function': f.fq, 'front-counted axes': [src(x)[:50] for x, _ in hz]}, f.fq)
+            for node, why in hz:
+                res.add(Finding(rid, f, '`%s`: %s' % (src(node)[:60], why), node=node, construct='front-axis|' + norm_construct(node, f.node)))
+    fx = ast.parse('def f(a, b):\n    x = torch.norm(a, 2, -1) + torch.norm(a, 2, 1)\n    y = torch.cat([a, b], dim=-1).sum(1)\n    z = a.T @ b.mT\n'
+                   '    w = a.transpose(-1, -2).transpose(1, 2)\n    return torch.linalg.norm(a, dim=1), a.unsqueeze(0), a.view(-1, 3)\n').body[0]
+    if len(front_axes(fx)) != 5:
+        raise AnalysisError('%s: fixture no longer classified (%d)' % (rid, len(front_axes(fx))))
+    return res
